@@ -176,7 +176,7 @@ func opCliGenHar(a []Sx) Sx {
 func opCliSignRefuse(a []Sx) Sx {
 	d, clean := tmpDir()
 	defer clean()
-	env := []string{"WEB_BUNDLE_SIGNING_PASSPHRASE=secret passphrase"}
+	env := []string{"WEB_BUNDLE_SIGNING_PASSPHRASE= secret passphrase\t"}
 	kind := string(a[0].B)
 	root := filepath.Join(d, "root")
 	os.MkdirAll(root, 0755)
@@ -251,7 +251,7 @@ func writeKeyForms(dir string, curve elliptic.Curve, cn string) (map[string]stri
 	p8, _ := x509.MarshalPKCS8PrivateKey(priv)
 	forms["pkcs8"] = filepath.Join(dir, "key-pkcs8.pem")
 	pemFile(forms["pkcs8"], "PRIVATE KEY", p8)
-	enc, err := pkcs8.MarshalPrivateKey(priv, []byte("secret passphrase"), nil)
+	enc, err := pkcs8.MarshalPrivateKey(priv, []byte(" secret passphrase\t"), nil)
 	if err == nil {
 		forms["encrypted"] = filepath.Join(dir, "key-enc.pem")
 		pemFile(forms["encrypted"], "ENCRYPTED PRIVATE KEY", enc)
@@ -266,7 +266,7 @@ func opCliChain(a []Sx) Sx {
 	d, clean := tmpDir()
 	defer clean()
 	kind := string(a[0].B)
-	env := []string{"WEB_BUNDLE_SIGNING_PASSPHRASE=secret passphrase"}
+	env := []string{"WEB_BUNDLE_SIGNING_PASSPHRASE= secret passphrase\t"}
 	switch kind {
 	case "certurl", "sxg":
 		curve := elliptic.P256()
